@@ -31,6 +31,9 @@ package listener
 // ---- C16: a new local connection tries the direct forward address first; the upstreams are used only when
 // there is no usable forward address or dialling it failed
 //@ ghost G_snap_direct() bool
+//@ ghost G_closes(x interface{}) int
+//@ ghost G_isclosed(x interface{}) bool
+//@ go func reportsClosedL(c io.Closer) bool { _, ok := c.(streams.Closed); return ok && G_isclosed(c) }
 //@ func (l *AbstractListener) ConnectDirectly
 //@   property C16
 //@   safe
@@ -38,9 +41,12 @@ package listener
 //@   modifies conn.*, G_closes(conn), G_isclosed(conn)
 //@   callsite net.Dial#1 (forward *addr.ProtoAddress) require forward != nil && forward.Host != "" && forward.Scheme != ""     :dials_only_a_complete_forward_address
 //@   ensures old(l.Forward) == nil ==> !result                                                                  :no_forward_address_means_not_handled
+//@   property C14, C17
+//@   ensures result && !old(reportsClosedL(conn)) ==> G_closes(conn) == old(G_closes(conn)) + 1                   :handled_directly_means_closed
+//@   ensures !result ==> G_closes(conn) == old(G_closes(conn)) && G_isclosed(conn) == old(G_isclosed(conn))       :not_handled_means_untouched
 //@ func (l *AbstractListener) HandleConnection
 //@   property C16
-//@   requires conn != nil && l.Config != nil && upstream.UpstreamsInv(l.Upstreams)
+//@   requires conn != nil && !spec_sameref(conn, nil) && l.Config != nil && upstream.UpstreamsInv(l.Upstreams)
 //@   callsite ConnectDirectly#1 (ok bool) assume G_snap_direct() == ok "ghost snapshot: the direct attempt handled the connection"
 //@   callsite Connect#1 () require !G_snap_direct()                                                             :upstreams_only_after_the_direct_attempt_failed
 // C14 / C17 / C01: the local connection is piped to the upstream stream it was given, and when handling ends
@@ -49,3 +55,5 @@ package listener
 //@   callsite PipeData#1 (arg1 io.ReadWriteCloser, up streams.ReadWriteCloserClosed) require spec_sameref(arg1, up)      :pipes_to_the_stream_just_opened
 //@   callsite TryClose#1 (arg0 io.Closer, up streams.ReadWriteCloserClosed) require spec_sameref(arg0, up)               :upstream_stream_closed_when_handling_ends
 //@   callsite TryClose#2 (arg0 io.Closer) require spec_sameref(arg0, conn)                                               :local_connection_closed_when_handling_ends
+//@   callsite Connect#1 (up streams.ReadWriteCloserClosed, e error) assume G_closes(conn) == old(G_closes(conn)) && G_isclosed(conn) == old(G_isclosed(conn)) "opening an upstream stream does not touch the local connection (it is not reachable from the upstream list)"
+//@   ensures !old(reportsClosedL(conn)) ==> G_closes(conn) == old(G_closes(conn)) + 1                                    :local_connection_is_closed_on_every_path
